@@ -33,7 +33,9 @@ LEVEL_TEXT = ('Generated models / linkers / symbol lists are exported and re-imp
               'objects, round trips with the originals.')
 LEVEL_NOTE = 'Trusted: pandas. Not covered: MultiIndex spans; DataFrames edited between export and import.'
 
-EXTRAS = [('K', 'int'), ('_hidden', 'float'), ('flag', 'bool'), ('label', 'str'), ('_n', 'int'), ('W', 'float')]
+EXTRAS = [('K', 'int'), ('_hidden', 'float'), ('flag', 'bool'), ('label', 'str'), ('_n', 'int'), ('W', 'float'),
+          # internal names whose non-underscore twin is a variable too (storage of `K` lives under `_K`)
+          ('_K', 'float'), ('_W', 'bool'), ('_flag', 'int')]
 
 
 def build_model(case):
@@ -223,7 +225,7 @@ def strat_model():
     return st.fixed_dictionaries({
         'prog': G.programs(max_statements=3, max_leaves=4, named_periods=False, blocks=False, big_offsets=False, max_offset=2),
         'span': st.sampled_from(descs),
-        'extras': st.lists(st.integers(0, 5), max_size=4),
+        'extras': st.lists(st.integers(0, 8), max_size=6),
         'solved': st.integers(0, 2),
     })
 
@@ -238,8 +240,8 @@ def strat_linker():
         k = draw(st.integers(0, 3))
         ids = draw(st.permutations(['a', 'b', 7, 'zz']))[:k]
         return {'span': draw(st.sampled_from(descs)),
-                'subs': [{'id': i, 'prog': draw(prog), 'extras': draw(st.lists(st.integers(0, 5), max_size=3))} for i in ids],
-                'name': draw(st.sampled_from(['_', 'core', 0])), 'extras': draw(st.lists(st.integers(0, 5), max_size=3)),
+                'subs': [{'id': i, 'prog': draw(prog), 'extras': draw(st.lists(st.integers(0, 8), max_size=4))} for i in ids],
+                'name': draw(st.sampled_from(['_', 'core', 0])), 'extras': draw(st.lists(st.integers(0, 8), max_size=4)),
                 'solved': draw(st.booleans())}
     return cases()
 
